@@ -132,7 +132,7 @@ pub fn gen_parse_case(rng: &mut Rng, force_valid: bool) -> ParseCase {
         junk,
         src,
         only_k: None,
-        fault_kind: rng.below(14) as u8,
+        fault_kind: rng.below(crate::source::FAULT_SELECTORS) as u8,
     }
 }
 
@@ -629,6 +629,7 @@ impl Prop for C04 {
                 fired_n += 1;
                 st.hit("fault.terminal_error_fired");
                 st.hit(&match os {
+                    Some(code) if code < 0 => format!("fault.library_error_type_as_payload.{}", -code),
                     Some(code) => format!("fault.os_error.{code}"),
                     None => format!("fault.kind.{}", kind_name(kind)),
                 });
@@ -671,7 +672,12 @@ impl Prop for C04 {
                     Outcome::Io { kind: gk, msg, payload } => {
                         *gk == kind
                             && msg.contains(&s.fail_msg())
-                            && (os.is_some() || *payload == s.cfg.fail_at.map(|f| f.0))
+                            && match os {
+                                Some(c) if c >= 0 => true,
+                                // the library's own error type as payload: still that payload
+                                Some(c) => *payload == Some(usize::MAX - (-c) as usize),
+                                None => *payload == s.cfg.fail_at.map(|f| f.0),
+                            }
                     }
                     Outcome::Panic(p) => {
                         if matches!(&free.outcome, Outcome::Panic(q) if q == p) {
